@@ -217,11 +217,14 @@ fn run_redo() -> (Result<(), Error>, Option<StdinLogReader>) {
     set_defint(ENV_COLOR, auto_bool_arg(&matches, "color"));
     let mut targets = {
         let mut targets = Vec::<&RedoPath>::new();
-        for arg in matches.values_of("target").unwrap_or_default() {
-            targets.push(match RedoPath::from_str(arg) {
-                Ok(p) => p,
-                Err(e) => return (Err(e.into()), None),
-            });
+        // (values_of panics on an argument that is not UTF-8)
+        if let Some(args) = matches.values_of_os("target") {
+            for arg in args {
+                targets.push(match RedoPath::from_os_str(arg) {
+                    Ok(p) => p,
+                    Err(e) => return (Err(e.into()), None),
+                });
+            }
         }
         targets
     };
